@@ -27,6 +27,8 @@ def cases(tier, rng):
         for n in lens:
             for pat in (('rand',) if tier == 'quick' else ('rand', 'zero', 'ones')):
                 yield {'k': 'blake', 'size': size, 'n': n, 'L': None, 'sur': 0, 'salt': 'zero' if n % 3 else 'rand', 'pat': pat, 'single': n % 5 == 0}
+        for n in (4095, 4096, 4099) + ((65539,) if size in (256, 512) else ()):          # long inputs
+            yield {'k': 'blake', 'size': size, 'n': n, 'L': None, 'sur': 0, 'salt': 'rand' if n % 2 else 'zero', 'pat': 'rand', 'single': False}
         for n in (1, 5, B - 1, B, B + 1, 2 * B + 3):
             yield {'k': 'blake', 'size': size, 'n': n, 'L': 0, 'sur': 0, 'salt': 'zero' if n % 2 else 'rand', 'pat': 'rand', 'single': n == 5}
         spill = B - w // 4 - 1
@@ -53,7 +55,7 @@ def cases(tier, rng):
     for size in (256, 512):
         B = 128 if size == 512 else 64
         omax = B // 2
-        for n in list(range(0, 2 * B + 2)) + [3 * B - 1, 3 * B, 3 * B + 1, 4 * B, 4 * B + 1, 5 * B]:
+        for n in list(range(0, 2 * B + 2)) + [3 * B - 1, 3 * B, 3 * B + 1, 4 * B, 4 * B + 1, 5 * B, 4095, 4096, 4099, 65539]:
             yield {'k': 'blake2', 'size': size, 'n': n, 'pc': 'default', 'pat': 'rand', 'single': n % 4 == 0}
         for ol in range(1, omax + 1):
             yield {'k': 'blake2', 'size': size, 'n': [0, 3, B, B + 1][ol % 4], 'pc': 'outlen', 'outlen': ol, 'pat': 'rand', 'single': ol % 7 == 0}
